@@ -39,6 +39,8 @@ from .common_node import wake_fail
 
 def run(ctx: Ctx):
     model = ctx.model
+    from .common_node import names_resolve
+    names_resolve(ctx, "C12-RN")
     nc = model.cls("node.node", "Node")
     peer_mod = model.module("node.peer")
     C = lambda n: model.fold_name(peer_mod, n)
